@@ -2748,13 +2748,15 @@ class PGPKeyring(collections_abc.Container, collections_abc.Iterable, collection
 
         # this is an alias that already exists, but points to a key that is not already referenced by it
         else:
-            adepth = len(self._aliases) - len([None for m in self._aliases if alias in m]) - 1
-            # all alias maps have this alias, so increase total depth by 1
-            if adepth == -1:
-                self._aliases.appendleft({})
-                adepth = 0
+            for m in self._aliases:
+                if alias not in m:
+                    m[alias] = pkid
+                    break
 
-            self._aliases[adepth][alias] = pkid
+            else:
+                # all alias maps have this alias, so increase total depth by 1
+                self._aliases.appendleft({alias: pkid})
+
             self._sort_alias(alias)
 
     def _add_key(self, pgpkey):
